@@ -15,7 +15,7 @@ LEVEL = 'model_checking'
 RULE = ('state = (spec, period); all two-/three-zone specs within the deviation bound that contain at least one cross-currency '
         'gift, import supplier or gold government; oracles (exact): receiver credited amount*XR_sender/XR_receiver and sender '
         'debited the amount (term-level in F and INC), sum_c NET_c*XR_c + NET_NUMERAIRE == 0, NET_NUMERAIRE == 0 without gold, '
-        'cross-rate variable == XR_a/XR_b, supplier in another currency credited at the cross rate; negative family: same spec '
+        'cross-rate variable == XR_a/XR_b, supplier in another currency credited at the cross rate, gold buyer debited the purchase and the gold market credited XR_buyer*purchase (GOLDPRICE == PRICE/XR); negative family: same spec '
         'without ExternalSector -> LogicError and empty TimeSeries. non-trivial = a used link whose two rates are non-unit and unequal')
 ASSUMPTIONS = [
     'exchange-rate paths from {unit, 2, 4, time-varying 2,2,3,5}; gift amount 0.1*AfterTax; import rule MU*INC',
@@ -145,6 +145,32 @@ def check_spec(spec, labels):
                           if mkt.GetVariableName('SUP_' + sup.FullCode) in names or supvar in names)
                 if got != want:
                     V('foreign-supplier-cashflow-wrong', 'period %d: %s receives %s for its exports, expected %s' % (k, fname, got, want))
+        # gold purchases: the buyer pays `purchase` in its currency; the gold market is credited its numeraire value
+        gold_buyers = [c for c in spec['countries'] if c['gov'] == 'GOLD']
+        if gold_buyers:
+            gold = m.ExternalSector['GOLD']
+            netoz = gold.GetVariableName('NETOZ')
+            price = gold.GetVariableName('PRICE')
+            want_oz = 0
+            gold_num = 0
+            for c in gold_buyers:
+                gov = S[(c['code'], 'GOV')]
+                pur = s[gov.GetVariableName('GOLDPURCHASES')]
+                x = s[xrname[c['cur']]]
+                want_oz += x * pur
+                gp = gov.GetVariableName('GOLDPRICE')
+                if s[gp] != s[price] / x:
+                    V('gold-price-wrong', 'period %d: %s = %s, expected PRICE/XR = %s' % (k, gp, s[gp], s[price] / x))
+                fterm = sum(v for names, v in exact.term_values(eqs[gov.GetVariableName('F')], s) if gov.GetVariableName('GOLDPURCHASES') in names)
+                if fterm != -pur:
+                    V('gold-buyer-debit-wrong', 'period %d: buyer books %s for a purchase of %s' % (k, fterm, pur))
+                if pur != 0 and x != 1:
+                    nontrivial = True
+            if s[netoz] != want_oz:
+                V('gold-market-credit-wrong', 'period %d: %s = %s, expected sum XR_buyer*purchase = %s' % (k, netoz, s[netoz], want_oz))
+            # the numeraire the FX intermediary hands over equals what the gold market receives, when gold is the only unpaired flow
+            if not cross_links(spec) and s[netnum] != -want_oz:
+                V('gold-numeraire-leg-wrong', 'period %d: NET_NUMERAIRE = %s, gold market receives %s' % (k, s[netnum], want_oz))
         # cross-rate variables that exist
         for a in curs:
             for bcur in curs:
